@@ -113,7 +113,16 @@ class CSEMapper(IdentityMapper):
     def map_common_subexpression(self, expr):
         # Avoid creating CSE(CSE(...))
         if type(expr) is prim.CommonSubexpression:
-            return prim.wrap_in_cse(self.rec(expr.child), expr.prefix)
+            # All occurrences of the child, wrapped or not, share one wrapper.
+            key = self.get_key(expr.child)
+            try:
+                return self.canonical_subexprs[key]
+            except KeyError:
+                pass
+
+            result = prim.wrap_in_cse(self.rec(expr.child), expr.prefix)
+            self.canonical_subexprs[key] = result
+            return result
         else:
             # expr is of a derived CSE type
             result = self.rec(expr.child)
